@@ -215,3 +215,21 @@ claim('C07',
 
 NOT_CLAIMED['C17'] = ('partly built: Props/C17.lean (single checks are pointwise; BatchGCD permutation / healthy-addition / set-function) and harness/corr/c17.py '
                       '(RSA single checks alone vs batch vs position vs earlier calls; CheckGCD permutations) are green; EC / ECDSA halves (table history, issuer grouping) pending')
+
+claim('C19',
+      'Lean theorems (Props/C19.lean, 94 kernel-checked statements, no size bounds). '
+      'ntheory_util: Inverse2exp returns None iff n is even and otherwise a with a*n = 1 mod 2^k for every k (reduced for k >= 2); '
+      'InverseSqrt2exp returns a with a*a*n % 2^k == 1 and returns None exactly when no such a exists (for k >= 3: iff n % 8 != 1; k = 0 always None, literal docstring reading); '
+      'Sqrt2exp raises ValueError for even n / negative k and for odd n returns exactly the reduced square roots of n mod 2^k: each is a root, pairwise distinct, none missing, none or four for k >= 3, empty iff no root exists; '
+      'ContinuedFraction(a,b) equals Euclid\'s quotient list with the convergents of the textbook recurrence (the model\'s fuel 2*bitlen(b)+2 provably never runs out), r_{i+1} t_i - r_i t_{i+1} = (-1)^i, every convergent in lowest terms, last convergent = (a/gcd, b/gcd); '
+      'DivmodRounded: q*b + r = a always, exact remainder ranges for all four sign/parity classes of b, nearest-integer (ties up) for even b and for b < 0, exact for every power of two >= 2 (the callers\' case), and the docstring claim q = round(a/b) is REFUTED for odd b > 0 (DivmodRounded(1,3) = (1,-2), D16; full theorem for the repaired variant); '
+      'Sieve(n) = the increasing list of primes below n. '
+      'linalg_util: upper_triangular_solve returns x with (upper triangle of a) x = b, None iff a zero on the diagonal, shape errors as coded; every step of echelon_form (elimination with non-zero pivot, row move, exact division) preserves the solution set; solve_right WITH fixes/D7-solve-right.diff returns the unique solution of any consistent system whenever it returns a vector, under the hypothesis that every //= was exact (Bareiss exactness is a hypothesis, monitored at run time); for the pinned code a kernel-checked 5x4 counter-example (D7). '
+      'lattice_suite / util / small_roots: PseudoAverage picks the first minimiser of the stated variance difference (exact ring identity), which is the global minimum over all 2^m shift selections, result in [0,n); each Bias summand is the distance to the nearest multiple of n and 0 <= 2t/n <= len; UniformSumCdf\'s running binomial is C(n,k) and its exact value is the Irwin-Hall sum (n <= 36), branch structure incl. reflection; CombinedPValue decision logic; small-root guards: an accepted candidate has y = f(r) mod n with y != 0 and y | n, which is a root modulo a proper factor only if |y| != 1 - the code does not test this (D9, reproduced with the real LLL); repaired guard proved. '
+      'Model tied to /repo by differential correspondence: exhaustive n < 4096, k <= 12 for the 2-adic routines, 1..4096-bit random values with k up to 2050, Fibonacci worst cases up to 4200 bits, all |a|,|b| <= 60 for DivmodRounded, Sieve for n <= 300 and up to 2^20, integer matrices up to 8x5 incl. planted zero rows/pivots/dependent rows, float results of UniformSumCdf/CombinedPValue/Bias within 1e-9 of the exact model value (mpmath), planted-root polynomials with recorded and adversarial LLL answers (~330k inputs per quick run). '
+      'NOT claimed: that the small-root finders find the planted root (depends on LLL), exactness of the fraction-free divisions (hypothesis), UniformSumCdf for n > 36 being the Irwin-Hall CDF (it is the documented normal approximation, within the 1e-3 the repo\'s test states), validity of any p-value.',
+      'Known findings reported on every run while unrepaired: D7 (solve_right wrong vector for a consistent system), D9 (guard accepts f(r) = +-1), D16 (odd divisors). '
+      'Arguments are modelled in the ranges the callers use (n, a, b >= 0 for the ntheory functions; DivmodRounded on all integers). '
+      'Trusted: Lean kernel, Mathlib definitions of Nat.Prime / ModEq / gcd / Rat, correspondence harness, in-memory application of the D7 diff, mpmath for the float tail, gmpy2.mpq normalisation.',
+      'Lean 4 proofs over an executable model + differential correspondence with the Python implementation; defects carried as pinned/repaired model variants',
+      'DESIGN.md section 5 C19, defects D7 D9 D16')
